@@ -84,9 +84,10 @@ pub fn gen_valid_set(r: &mut Rng) -> SSet {
 }
 
 /// malformed candidate sets for rotation (each violates one rule of validate_signers)
-pub fn gen_bad_set(r: &mut Rng) -> (&'static str, SSet) {
+pub fn gen_bad_set(r: &mut Rng) -> (&'static str, SSet) { let k = r.below(8); gen_bad_set_k(r, k) }
+pub fn gen_bad_set_k(r: &mut Rng, kind: u64) -> (&'static str, SSet) {
     let mut s = gen_valid_set(r);
-    match r.below(8) {
+    match kind {
         0 => { s.signers.clear(); ("empty", s) }
         1 => { if s.signers.len() >= 2 { s.signers.swap(0, 1); ("unsorted", s) } else { s.signers[0].pk = vec![0; 32]; ("zero_key", s) } }
         2 => { let d = s.signers[0].clone(); s.signers.insert(1, d); ("duplicate_key", s) }
@@ -262,12 +263,16 @@ pub fn run(seed: u64, ntraces: usize) {
         // directed rotation battery (t % 8 == 5): (caller index in [owner, operator, user0, user1], set: 0 latest / 1 previous, early?)
         //   owner and a user inside the delay (refused), the operator inside the delay (allowed), then after the delay:
         //   the owner with the previous set (refused), a user with the latest set (allowed), the operator with the previous set (allowed)
-        let mut rot_script: Vec<(usize, usize, bool)> = if t % 8 == 5 && !no_operator && st.res.result_status == 0 { vec![(0, 0, true), (2, 0, true), (1, 0, true), (0, 1, false), (2, 0, false), (1, 1, false), (0, 0, true)] } else { vec![] };
+        let mut rot_script: Vec<(usize, usize, bool, Option<u64>)> = if t % 8 == 5 && !no_operator && st.res.result_status == 0 {
+            let mut v = vec![(0, 0, true, None), (2, 0, true, None), (1, 0, true, None), (0, 1, false, None), (2, 0, false, None), (1, 1, false, None), (0, 0, true, None)];
+            // then the operator (no delay needed) proposes every kind of malformed set with a fully signed proof of the latest set: all refused
+            for k in 0..8u64 { v.push((1, 0, true, Some(k))); }
+            v } else { vec![] };
         let nops = nops + rot_script.len();
         for _ in 0..nops {
             let forced_rot = if rot_script.is_empty() { None } else { Some(rot_script.remove(0)) };
             // time advance around the rotation delay
-            let dt = if let Some((_, _, early)) = forced_rot { if early { g.min_delay / 2 } else { g.min_delay + 1 } } else { match r.below(6) { 0 => 0, 1 => g.min_delay.saturating_sub(1), 2 => g.min_delay, 3 => g.min_delay + 1, _ => r.below(2 * g.min_delay + 5) } };
+            let dt = if let Some((_, _, early, _)) = forced_rot { if early { g.min_delay / 2 } else { g.min_delay + 1 } } else { match r.below(6) { 0 => 0, 1 => g.min_delay.saturating_sub(1), 2 => g.min_delay, 3 => g.min_delay + 1, _ => r.below(2 * g.min_delay + 5) } };
             let now = (g.last_rot + dt).max(t0); t0 = now; g.w.set_time(now);
             let callers = [g.owner.clone(), g.operator.clone(), g.users[0].clone(), g.users[1].clone()];
             let choice = if forced_rot.is_some() { 8 } else { r.below(20) };
@@ -293,16 +298,16 @@ pub fn run(seed: u64, ntraces: usize) {
                 (op_json("approve", format!("{}/{}/{}/n={}", mlabel, slabel, p.label, nm), &caller, now, json!({"messages": hx(&raw), "proof": hx(&p.bytes)})), st)
             } else if choice < 12 {
                 // rotateSigners
-                let (nlabel, newset) = match if forced_rot.is_some() { 5 } else { r.below(6) } { 0 => gen_bad_set(&mut r), 1 | 2 if !g.sets.is_empty() => ("duplicate_of_registered", g.sets[r.below(g.sets.len() as u64) as usize].clone()), _ => ("fresh", gen_valid_set(&mut r)) };
+                let (nlabel, newset) = if let Some((_, _, _, Some(k))) = forced_rot { gen_bad_set_k(&mut r, k) } else { match if forced_rot.is_some() { 5 } else { r.below(6) } { 0 => gen_bad_set(&mut r), 1 | 2 if !g.sets.is_empty() => ("duplicate_of_registered", g.sets[r.below(g.sets.len() as u64) as usize].clone()), _ => ("fresh", gen_valid_set(&mut r)) } };
                 // the same logical set may arrive with non-canonical (zero-padded) weights / threshold: it is still the same set
                 let npad = if forced_rot.is_none() && (r.chance(1, 8) || (nlabel == "duplicate_of_registered" && r.chance(1, 2))) { 1 + r.below(2) as usize } else { 0 };
                 let mut raw = newset.encode(npad);
                 if forced_rot.is_none() && r.chance(1, 20) { raw.push(0); }
-                let (slabel, set) = if let Some((_, which, _)) = forced_rot { let e = g.sets.len(); if which == 1 && e >= 2 { ("previous", g.sets[e - 2].clone()) } else { ("latest", g.sets[e - 1].clone()) } } else { g.pick_set(&mut r) };
+                let (slabel, set) = if let Some((_, which, _, _)) = forced_rot { let e = g.sets.len(); if which == 1 && e >= 2 { ("previous", g.sets[e - 2].clone()) } else { ("latest", g.sets[e - 1].clone()) } } else { g.pick_set(&mut r) };
                 let variant = if forced_rot.is_some() { 1 } else if r.chance(2, 3) { r.below(2) } else { r.below(22) };
                 let G { pool, tab, domain, .. } = &mut g;
                 let p = build_proof(&mut r, pool, tab, &set, domain, 1, &raw, variant);
-                let caller = if let Some((ci, _, _)) = forced_rot { callers[ci].clone() } else if r.chance(1, 2) { g.operator.clone() } else { r.pick(&callers).clone() };
+                let caller = if let Some((ci, _, _, _)) = forced_rot { callers[ci].clone() } else if r.chance(1, 2) { g.operator.clone() } else { r.pick(&callers).clone() };
                 let st = g.w.call0(&caller, &g.gw, "rotateSigners", vec![raw.clone(), p.bytes.clone()]);
                 if st.res.result_status == 0 { g.sets.push(newset); g.last_rot = now; }
                 (op_json("rotate", format!("{}/{}/{}/{}", nlabel, slabel, p.label, if caller == g.operator { "operator" } else { "other" }), &caller, now,
